@@ -322,7 +322,7 @@ impl Corruptions {
         };
         corpus.push((Ty::Reply, reply_ok.clone()));
         corpus.push((Ty::GeneratedFile, reply_ok[1..10].to_vec()));
-        corpus.push((Ty::Diagnostic, reply_ok[11..].to_vec()));
+        corpus.push((Ty::Diagnostic, reply_ok[10..].to_vec())); // (from the has-source byte)
         corpus.push((Ty::SkipTagged, vec![4, 2 << 2, 9, 9, 8, 0, 0xfc]));
         Corruptions { corpus }
     }
@@ -463,9 +463,181 @@ impl Family for RepliesThroughTheCompiler {
     }
 }
 
+
+// ------------------------------------------------------------------------------------------------------------
+// Tagged-field blocks with tags of every width and fields of non-trivial sizes, each followed by a VALID rest (real
+// and reference only disagree about the tag if everything after it is well-formed)
+
+pub struct TaggedFields {
+    cases: Vec<(Ty, Vec<u8>, String)>,
+}
+fn enc_varint_w(v: i128, w: usize) -> Vec<u8> {
+    let code = [0u8, 0, 1, 0, 2, 0, 0, 0, 3][w];
+    let x = ((v << 2) | code as i128) as u64;
+    x.to_le_bytes()[..w].to_vec()
+}
+fn varint_fits(v: i128, w: usize) -> bool {
+    let bits = (w * 8 - 2) as u32;
+    v >= -(1i128 << (bits - 1)) && v < (1i128 << (bits - 1))
+}
+impl TaggedFields {
+    pub fn new() -> Self {
+        let tags: [i128; 16] = [0, 1, 31, 32, -33, 8191, 8192, -8193, (1 << 29) - 1, 1 << 29, i32::MAX as i128, i32::MAX as i128 + 1, i32::MIN as i128, i32::MIN as i128 - 1, (1 << 34) - 1, (1i128 << 61) - 1];
+        let mut cases = vec![];
+        for (ty, prefix) in [(Ty::SkipTagged, vec![]), (Ty::GeneratedFile, vec![0u8, 0]), (Ty::Diagnostic, vec![0u8, 1, 0])] {
+            for tag in tags {
+                for w in [1usize, 2, 4, 8] {
+                    if !varint_fits(tag, w) {
+                        continue;
+                    }
+                    for fsize in [0usize, 1, 3, 63, 64] {
+                        for tail in 0..3 {
+                            let mut b = prefix.clone();
+                            b.extend(enc_varint_w(tag, w));
+                            b.extend(crate::proc::enc_size(fsize as u64));
+                            b.extend(std::iter::repeat(0xA5).take(fsize));
+                            match tail {
+                                0 => b.push(0xfc),
+                                1 => {
+                                    b.extend(enc_varint_w(7, 2));
+                                    b.extend(crate::proc::enc_size(2));
+                                    b.extend([1, 2]);
+                                    b.push(0xfc);
+                                }
+                                _ => {} // the end marker is missing
+                            }
+                            cases.push((ty.clone(), b, format!("tag {tag} written in {w} byte(s), field of {fsize} byte(s), tail {}", ["end marker", "a second field, end marker", "no end marker"][tail])));
+                        }
+                    }
+                }
+            }
+        }
+        TaggedFields { cases }
+    }
+}
+impl Family for TaggedFields {
+    fn name(&self) -> String {
+        format!("tagged-fields/{} blocks: 16 tags (incl. one below / above every size class and the int32 range) x every width that can hold them x field sizes 0, 1, 3, 63, 64 x 3 tails, decoded by skip-tagged-fields and at the end of GeneratedFile and Diagnostic", self.cases.len())
+    }
+    fn len(&self) -> u64 {
+        self.cases.len() as u64
+    }
+    fn describe(&self, idx: u64) -> Value {
+        let (ty, b, what) = &self.cases[idx as usize];
+        json!({"type": format!("{ty:?}"), "bytes": format!("{:02x?}", b.iter().take(24).collect::<Vec<_>>()), "length": b.len(), "what": what})
+    }
+    fn run(&self, idx: u64) -> CaseOut {
+        let (ty, b, _) = &self.cases[idx as usize];
+        let mut out = CaseOut::new(hash_str(&format!("tf{idx}")));
+        out.nontrivial = true;
+        out.validated = 1;
+        check_decode(ty, b, &mut out, "c11/tagged-fields");
+        out.class = format!("{}:{}", c10::ty_name(ty), if out.violations.is_empty() { "agree" } else { "violation" });
+        out
+    }
+}
+
+// ------------------------------------------------------------------------------------------------------------
+// Variable-length integers decoded into targets that are not the matching primitive: the public bound is only
+// `T: TryFrom<i64>` / `TryFrom<u64>`
+
+pub struct ExoticTargets;
+#[derive(Debug)]
+struct Zst;
+#[derive(Debug)]
+struct Wide(#[allow(dead_code)] [u64; 3]);
+#[derive(Debug)]
+struct Odd(#[allow(dead_code)] [u8; 3]);
+macro_rules! never_converts {
+    ($t:ty) => {
+        impl TryFrom<i64> for $t {
+            type Error = ();
+            fn try_from(_: i64) -> Result<Self, ()> {
+                Err(())
+            }
+        }
+        impl TryFrom<u64> for $t {
+            type Error = ();
+            fn try_from(_: u64) -> Result<Self, ()> {
+                Err(())
+            }
+        }
+    };
+}
+never_converts!(Zst);
+never_converts!(Wide);
+never_converts!(Odd);
+impl Family for ExoticTargets {
+    fn name(&self) -> String {
+        "exotic-varint-targets/all byte strings of length <= 2 (and the 4- and 8-byte encodings of 5 values) decoded as varint and as varuint into a zero-sized, a 3-byte and a 24-byte target type whose conversion always fails, and into the primitive of the other signedness".into()
+    }
+    fn len(&self) -> u64 {
+        258
+    }
+    fn describe(&self, idx: u64) -> Value {
+        json!({"first_byte_or_group": idx, "targets": ["zero-sized", "3 bytes", "24 bytes", "u32 for varint", "i32 for varuint"]})
+    }
+    fn run(&self, idx: u64) -> CaseOut {
+        use slice_codec::decoder::Decoder;
+        let mut out = CaseOut::new(hash_str(&format!("exo{idx}")));
+        out.nontrivial = true;
+        out.steps = 0;
+        let mut inputs: Vec<Vec<u8>> = vec![];
+        if idx < 256 {
+            inputs.push(vec![idx as u8]);
+            for b in 0..=255u8 {
+                inputs.push(vec![idx as u8, b]);
+            }
+        } else {
+            for v in [0i128, -1, 1 << 20, -(1 << 28), (1 << 40) + 3] {
+                inputs.push(enc_varint_w(v, if idx == 256 { 4 } else { 8 }));
+            }
+        }
+        for input in &inputs {
+            macro_rules! one {
+                ($t:ty, $name:literal, $never:expr) => {{
+                    for signed in [true, false] {
+                        out.steps += 1;
+                        let r = guarded(|| {
+                            let mut d = Decoder::from(&input[..]);
+                            let r: Result<$t, _> = if signed { d.decode_varint::<$t>() } else { d.decode_varuint::<$t>() };
+                            r.map(|_| ()).map_err(|e| guarded(|| e.to_string()))
+                        });
+                        let what = || format!("decoding {:02x?} as {} into {}", input, if signed { "varint" } else { "varuint" }, $name);
+                        match r {
+                            Err((loc, msg)) => out.violate(format!("c11/exotic-varint-targets/panic@{loc}"), format!("{} panicked at {loc}: {msg}", what())),
+                            Ok(Ok(())) => {
+                                if $never {
+                                    out.violate("c11/exotic-varint-targets/accepted-although-the-conversion-fails", what());
+                                }
+                            }
+                            Ok(Err(Err((loc, msg)))) => out.violate(format!("c11/exotic-varint-targets/error-not-renderable@{loc}"), format!("{}: rendering the error panicked: {msg}", what())),
+                            Ok(Err(Ok(s))) => {
+                                if s.trim().is_empty() {
+                                    out.violate("c11/exotic-varint-targets/error-renders-empty", what());
+                                }
+                            }
+                        }
+                    }
+                }};
+            }
+            one!(Zst, "a zero-sized type", true);
+            one!(Odd, "a 3-byte type", true);
+            one!(Wide, "a 24-byte type", true);
+            one!(u32, "u32", false);
+            one!(i32, "i32", false);
+        }
+        dedup_violations(&mut out);
+        out.class = if out.violations.is_empty() { "clean".into() } else { "violation".into() };
+        out
+    }
+}
+
 pub fn families(tier: &str) -> Vec<Box<dyn Family>> {
     let quick = tier == "quick";
     vec![
+        Box::new(TaggedFields::new()),
+        Box::new(ExoticTargets),
         Box::new(AnnouncedSizes::new()),
         Box::new(RepliesThroughTheCompiler::new()),
         Box::new(Corruptions::new(if quick { 12 } else { 24 })),
